@@ -1,6 +1,7 @@
 (* C07 — @leftrec rules terminate and build the left-nested tree of the longest growth. *)
 From PegV Require Import Utf8 State Terminals Syntax Fields Literals Model FuelMono Leftrec Extracted.
 From PegV Require WellFormed LRTerm.
+From PegV Require Import Conform CleanFrame UsualShape UsualShapeExamples.
 
 Theorem C07_facts :
   further_gt Extracted.scfg = true /\ leftrec_closed Extracted.rcfg = true /\
@@ -100,3 +101,322 @@ Theorem C07_instances :
   LRTerm.well_formed_lr LRTerm.g_calc = true /\ LRTerm.well_formed_lr LRTerm.g_calc_unmarked = false.
 Proof. split; [exact LRTerm.calc_well_formed_lr|exact LRTerm.unmarked_not_well_formed_lr]. Qed.
 Print Assumptions C07_instances.
+
+(* ---- "For the usual shape  A = A x | ... | b  this accepts exactly  b x*  (greedy) and returns the
+   tree nested to the left, each extension holding the previous result in its recursive field" -----
+   UsualShape.v resolves the recursive reference of a rule  A = l:A x1 xs... | b1 | balts...  (any x, any
+   further alternatives, any other directives and checks on A, memoized or left-recursive rules inside x
+   and b allowed, stateful hooks, every bound): as long as nothing is skipped between the entry of the rule
+   and its recursive field (`ws_trivial`: the rule is @no_skip_ws, or no whitespace follows the entry
+   offset), the body of a loop turn IS `usual_body` - the seed turn evaluates the other alternatives, a
+   growth turn binds the previous result to l and evaluates  x1 xs...  from the previous result's end
+   (C07_usual_body); what the parse of A returns was produced by such turns, each strictly further than the
+   one before, and the loop stopped because one more turn did not get strictly further - greedy
+   (C07_usual_parse; a failure is the failure of the seed turn), and a successful growth turn
+   extended the previous result or fell back to the other alternatives (C07_usual_extension).
+   The proviso is necessary: C07_closed_form_refuted_before_whitespace is the counterexample on the
+   unchanged tree (known finding c07:entered-before-whitespace). *)
+Theorem C07_usual_body :
+  forall (ustate : Type) (scfg : state_cfg) (tcfg : term_cfg) (fcfg : fields_cfg) 
+    (rcfg : rule_cfg) (hk : hooks ustate) (g : grammar) (A : rule) (l : name) 
+    (bx : bool) (x1 : expr) (xs : list expr) (b1 : expr) (balts : list expr),
+  r_def A = adef A l bx x1 xs b1 balts ->
+  find_grule g (r_name A) = Some (GRule A) ->
+  fl_left_recursive (flags_of (r_directives A)) = true ->
+  forall rf fds fds1 inner1 : list fdesc,
+  get_fields fcfg (gf_fuel g) g (adef A l bx x1 xs b1 balts) = GFOk rf ->
+  filt fcfg g (actx A rf) (adef A l bx x1 xs b1 balts) = Some fds ->
+  filt fcfg g (actx A rf) (alt1 A l bx x1 xs) = Some fds1 ->
+  own_fields fcfg g (alt1 A l bx x1 xs) = Some inner1 ->
+  forall (k : nat) (st : pstate) (gl : glob ustate) (c : cached),
+  ws_trivial g A rf st ->
+  cache_get (r_name A) (off st) (g_cache gl) = Some c ->
+  rule_body ustate scfg fcfg hk g (run ustate scfg tcfg fcfg rcfg hk g (S (S (S (S k))))) A st gl =
+  usual_body ustate scfg tcfg fcfg rcfg hk g A l x1 xs b1 balts rf fds fds1 inner1 k st c gl.
+Proof. exact usual_body_eq. Qed.
+Print Assumptions C07_usual_body.
+
+Theorem C07_usual_parse :
+  forall (ustate : Type) (scfg : state_cfg) (tcfg : term_cfg) (fcfg : fields_cfg) 
+    (rcfg : rule_cfg) (hk : hooks ustate) (g : grammar) (A : rule) (l : name) 
+    (bx : bool) (x1 : expr) (xs : list expr) (b1 : expr) (balts : list expr),
+  r_def A = adef A l bx x1 xs b1 balts ->
+  find_grule g (r_name A) = Some (GRule A) ->
+  fl_left_recursive (flags_of (r_directives A)) = true ->
+  forall rf fds fds1 inner1 : list fdesc,
+  get_fields fcfg (gf_fuel g) g (adef A l bx x1 xs b1 balts) = GFOk rf ->
+  filt fcfg g (actx A rf) (adef A l bx x1 xs b1 balts) = Some fds ->
+  filt fcfg g (actx A rf) (alt1 A l bx x1 xs) = Some fds1 ->
+  own_fields fcfg g (alt1 A l bx x1 xs) = Some inner1 ->
+  forall st : pstate,
+  ws_trivial g A rf st ->
+  forall (F : nat) (gl : glob ustate) (r : mres value) (gl' : glob ustate),
+  cache_get (r_name A) (off st) (g_cache gl) = None ->
+  ev_rule (run ustate scfg tcfg fcfg rcfg hk g F) (r_name A) st gl = (r, gl') ->
+  let sentinel := CErr (report_error scfg st LeftRecursionSentinel) in
+  match r with
+  | MOk v s' =>
+      Produced ustate scfg tcfg fcfg rcfg hk g A l x1 xs b1 balts rf fds fds1 inner1 st sentinel v s'
+  | MErr e =>
+      leftrec_closed rcfg = true ->
+      exists (k : nat) (gl0 gl1 : glob ustate),
+        usual_body ustate scfg tcfg fcfg rcfg hk g A l x1 xs b1 balts rf fds fds1 inner1 k st sentinel
+          gl0 = (MErr e, gl1)
+  | _ => True
+  end.
+Proof. exact usual_parse. Qed.
+Print Assumptions C07_usual_parse.
+
+Theorem C07_usual_extension :
+  forall (ustate : Type) (scfg : state_cfg) (tcfg : term_cfg) (fcfg : fields_cfg) 
+    (rcfg : rule_cfg) (hk : hooks ustate) (g : grammar) (A : rule) (l : name) 
+    (x1 : expr) (xs : list expr) (b1 : expr) (balts : list expr) (rf fds fds1 inner1 : list fdesc)
+    (k : nat) (st : pstate) (v : value) (s1 : pstate) (gl0 : glob ustate) (v' : value) 
+    (s' : pstate) (gl1 : glob ustate),
+  usual_body ustate scfg tcfg fcfg rcfg hk g A l x1 xs b1 balts rf fds fds1 inner1 k st (COk v s1) gl0 =
+  (MOk v' s', gl1) ->
+  exists fs acc : fields,
+    postprocess rf l (r_name A) v = Some fs /\
+    seq_merge_vals [] fs = Some acc /\
+    ((exists (fs' : fields) (gl2 : glob ustate) (out : fields),
+        seq_loop ustate (run ustate scfg tcfg fcfg rcfg hk g (S (S k))) (actx A rf) fds1 
+          (x1 :: xs) s1 acc (hitg ustate A (COk v s1) st gl0) = (MOk fs' s', gl2) /\
+        convert_arm fds inner1 fs' = Some out /\
+        finish ustate scfg hk A rf st (MOk out s', gl2) = (MOk v' s', gl1)) \/
+     (exists (e : perr) (gl2 : glob ustate),
+        seq_loop ustate (run ustate scfg tcfg fcfg rcfg hk g (S (S k))) (actx A rf) fds1 
+          (x1 :: xs) s1 acc (hitg ustate A (COk v s1) st gl0) = (MErr e, gl2) /\
+        finish ustate scfg hk A rf st
+          (choice_loop ustate scfg fcfg g (run ustate scfg tcfg fcfg rcfg hk g (S (S (S k))))
+             (actx A rf) fds (b1 :: balts) (record_error scfg st e) gl2) = (
+        MOk v' s', gl1))).
+Proof. exact usual_extension. Qed.
+Print Assumptions C07_usual_extension.
+
+Theorem C07_usual_instance :
+  r_def rE = adef rE nl true x_plus [x_num] b_num [] /\
+  find_grule g_sum (r_name rE) = Some (GRule rE) /\
+  fl_left_recursive (flags_of (r_directives rE)) = true /\
+  (exists rf fds fds1 inner1 : list fdesc,
+     get_fields fields_cfg_doc (gf_fuel g_sum) g_sum (adef rE nl true x_plus [x_num] b_num []) = GFOk rf /\
+     filt fields_cfg_doc g_sum (actx rE rf) (adef rE nl true x_plus [x_num] b_num []) = Some fds /\
+     filt fields_cfg_doc g_sum (actx rE rf) (alt1 rE nl true x_plus [x_num]) = Some fds1 /\
+     own_fields fields_cfg_doc g_sum (alt1 rE nl true x_plus [x_num]) = Some inner1).
+Proof. exact sum_is_usual. Qed.
+Print Assumptions C07_usual_instance.
+
+Theorem C07_usual_instance_left_nested :
+  exists st : pstate,
+    fst (run_sum [49%N; 43%N; 50%N; 43%N; 51%N]) = MOk (node (node (leaf 49) 50) 51) st /\
+    off st = 5 /\
+    parse_Whitespace (init_state [49%N; 43%N; 50%N; 43%N; 51%N]) =
+    TOk tt (init_state [49%N; 43%N; 50%N; 43%N; 51%N]).
+Proof. exact sum_left_nested. Qed.
+Print Assumptions C07_usual_instance_left_nested.
+
+Theorem C07_closed_form_refuted_before_whitespace :
+  (exists st : pstate, fst (run_sum [32%N; 49%N; 43%N; 50%N]) = MOk (leaf 49) st /\ off st = 2) /\
+  (exists st : pstate, fst (run_sum [49%N; 43%N; 50%N]) = MOk (node (leaf 49) 50) st /\ off st = 3) /\
+  parse_Whitespace (init_state [32%N; 49%N; 43%N; 50%N]) <> TOk tt (init_state [32%N; 49%N; 43%N; 50%N]).
+Proof. exact leading_blank_refuted. Qed.
+Print Assumptions C07_closed_form_refuted_before_whitespace.
+
+(* ---- the closed form itself ---------------------------------------------------------------------
+   When only the first alternative is recursive and  x...  and the other alternatives refer to rules of a
+   clean set (closed under reference, no @memoize / @leftrec rule: CleanFrame.v, C07_clean_frame - such
+   expressions never touch the cache, and their results depend on the position only: not on the cache, the
+   callback list, the ghost logs or the recorded furthest error), hooks carry no state, and the decision
+   points are as in the source (strict progress test, the seed's failure is stored):
+   B ("the other alternatives match at the entry, value v, end s") and X ("from (v, s) the rest of the first
+   alternative matches with the recursive field bound to v, value v', end s'") are partial functions of the
+   position (C07_base_is_a_function, C07_extension_is_a_function, _matches_or_fails), and the parse of A
+   fails iff B fails, and returns (v, s) iff  B = (v0, s0),  (v0, s0) X ... X (v, s)  with strictly increasing
+   offsets and X fails at (v, s) or does not get beyond s (C07_closed_form, C07_closed_form_accepts); that
+   chain is unique (C07_greedy_unique): the result is THE greedy left-nested match  b x*.
+   C07_closed_form_instance: the hypotheses are met by  @leftrec E = l:*E '+' n:N | n:N. *)
+Theorem C07_clean_frame :
+  forall (ustate : Type) (scfg : state_cfg) (tcfg : term_cfg) (fcfg : fields_cfg) 
+    (rcfg : rule_cfg) (hk : hooks ustate) (g : grammar) (clean : name -> bool),
+  (forall n : name, clean n = true -> rule_clean g clean n) ->
+  (forall (n : name) (r : rule),
+   clean n = true -> find_rule g n = Some r -> eclean clean (r_def r) = true) ->
+  clean n_Whitespace = true -> forall n : nat, Cev ustate clean (run ustate scfg tcfg fcfg rcfg hk g n).
+Proof. exact clean_frame. Qed.
+Print Assumptions C07_clean_frame.
+
+Theorem C07_closed_form :
+  forall (ustate : Type) (scfg : state_cfg) (tcfg : term_cfg) (fcfg : fields_cfg) 
+    (rcfg : rule_cfg) (hk : hooks ustate) (g : grammar) (A : rule) (l : name) 
+    (bx : bool) (x1 : expr) (xs : list expr) (b1 : expr) (balts : list expr),
+  r_def A = adef A l bx x1 xs b1 balts ->
+  find_grule g (r_name A) = Some (GRule A) ->
+  fl_left_recursive (flags_of (r_directives A)) = true ->
+  forall rf fds fds1 inner1 : list fdesc,
+  get_fields fcfg (gf_fuel g) g (adef A l bx x1 xs b1 balts) = GFOk rf ->
+  filt fcfg g (actx A rf) (adef A l bx x1 xs b1 balts) = Some fds ->
+  filt fcfg g (actx A rf) (alt1 A l bx x1 xs) = Some fds1 ->
+  own_fields fcfg g (alt1 A l bx x1 xs) = Some inner1 ->
+  forall clean : name -> bool,
+  (forall n : name, clean n = true -> rule_clean g clean n) ->
+  (forall (n : name) (r : rule),
+   clean n = true -> find_rule g n = Some r -> eclean clean (r_def r) = true) ->
+  clean n_Whitespace = true ->
+  lclean clean (b1 :: balts) = true ->
+  (forall u u' : ustate, u = u') ->
+  further_gt scfg = true ->
+  leftrec_closed rcfg = true ->
+  forall st : pstate,
+  ws_trivial g A rf st ->
+  forall (F : nat) (gl : glob ustate) (r : mres value) (gl' : glob ustate),
+  cache_get (r_name A) (off st) (g_cache gl) = None ->
+  ev_rule (run ustate scfg tcfg fcfg rcfg hk g F) (r_name A) st gl = (r, gl') ->
+  match r with
+  | MOk v s =>
+      exists (v0 : value) (s0 : pstate),
+        Bok ustate scfg tcfg fcfg rcfg hk g A b1 balts rf fds st v0 s0 /\
+        Star ustate scfg tcfg fcfg rcfg hk g A l x1 xs rf fds fds1 inner1 st v0 s0 v s /\
+        Stop ustate scfg tcfg fcfg rcfg hk g A l x1 xs rf fds fds1 inner1 st v s
+  | MErr _ => Bfail ustate scfg tcfg fcfg rcfg hk g A b1 balts rf fds st
+  | _ => True
+  end.
+Proof. exact closed_form. Qed.
+Print Assumptions C07_closed_form.
+
+Theorem C07_closed_form_accepts :
+  forall (ustate : Type) (scfg : state_cfg) (tcfg : term_cfg) (fcfg : fields_cfg) 
+    (rcfg : rule_cfg) (hk : hooks ustate) (g : grammar) (A : rule) (l : name) 
+    (bx : bool) (x1 : expr) (xs : list expr) (b1 : expr) (balts : list expr),
+  r_def A = adef A l bx x1 xs b1 balts ->
+  find_grule g (r_name A) = Some (GRule A) ->
+  fl_left_recursive (flags_of (r_directives A)) = true ->
+  forall rf fds fds1 inner1 : list fdesc,
+  get_fields fcfg (gf_fuel g) g (adef A l bx x1 xs b1 balts) = GFOk rf ->
+  filt fcfg g (actx A rf) (adef A l bx x1 xs b1 balts) = Some fds ->
+  filt fcfg g (actx A rf) (alt1 A l bx x1 xs) = Some fds1 ->
+  own_fields fcfg g (alt1 A l bx x1 xs) = Some inner1 ->
+  forall clean : name -> bool,
+  (forall n : name, clean n = true -> rule_clean g clean n) ->
+  (forall (n : name) (r : rule),
+   clean n = true -> find_rule g n = Some r -> eclean clean (r_def r) = true) ->
+  clean n_Whitespace = true ->
+  lclean clean (b1 :: balts) = true ->
+  (forall u u' : ustate, u = u') ->
+  further_gt scfg = true ->
+  leftrec_closed rcfg = true ->
+  forall st : pstate,
+  ws_trivial g A rf st ->
+  forall (F : nat) (gl : glob ustate) (e : perr) (gl' : glob ustate) (v0 : value) (s0 : pstate),
+  cache_get (r_name A) (off st) (g_cache gl) = None ->
+  Bok ustate scfg tcfg fcfg rcfg hk g A b1 balts rf fds st v0 s0 ->
+  ev_rule (run ustate scfg tcfg fcfg rcfg hk g F) (r_name A) st gl <> (MErr e, gl').
+Proof. exact closed_form_accepts. Qed.
+Print Assumptions C07_closed_form_accepts.
+
+Theorem C07_base_is_a_function :
+  forall (ustate : Type) (scfg : state_cfg) (tcfg : term_cfg) (fcfg : fields_cfg) 
+    (rcfg : rule_cfg) (hk : hooks ustate) (g : grammar) (A : rule) (b1 : expr) 
+    (balts : list expr) (rf fds : list fdesc) (clean : name -> bool),
+  (forall n : name, clean n = true -> rule_clean g clean n) ->
+  (forall (n : name) (r : rule),
+   clean n = true -> find_rule g n = Some r -> eclean clean (r_def r) = true) ->
+  clean n_Whitespace = true ->
+  lclean clean (b1 :: balts) = true ->
+  (forall u u' : ustate, u = u') ->
+  forall (st : pstate) (v : value) (s : pstate) (v' : value) (s' : pstate),
+  Bok ustate scfg tcfg fcfg rcfg hk g A b1 balts rf fds st v s ->
+  Bok ustate scfg tcfg fcfg rcfg hk g A b1 balts rf fds st v' s' -> v = v' /\ Rst s s'.
+Proof. exact Bok_fun. Qed.
+Print Assumptions C07_base_is_a_function.
+
+Theorem C07_base_matches_or_fails :
+  forall (ustate : Type) (scfg : state_cfg) (tcfg : term_cfg) (fcfg : fields_cfg) 
+    (rcfg : rule_cfg) (hk : hooks ustate) (g : grammar) (A : rule) (b1 : expr) 
+    (balts : list expr) (rf fds : list fdesc) (clean : name -> bool),
+  (forall n : name, clean n = true -> rule_clean g clean n) ->
+  (forall (n : name) (r : rule),
+   clean n = true -> find_rule g n = Some r -> eclean clean (r_def r) = true) ->
+  clean n_Whitespace = true ->
+  lclean clean (b1 :: balts) = true ->
+  (forall u u' : ustate, u = u') ->
+  forall (st : pstate) (v : value) (s : pstate),
+  Bok ustate scfg tcfg fcfg rcfg hk g A b1 balts rf fds st v s ->
+  ~ Bfail ustate scfg tcfg fcfg rcfg hk g A b1 balts rf fds st.
+Proof. exact Bok_not_fail. Qed.
+Print Assumptions C07_base_matches_or_fails.
+
+Theorem C07_extension_is_a_function :
+  forall (ustate : Type) (scfg : state_cfg) (tcfg : term_cfg) (fcfg : fields_cfg) 
+    (rcfg : rule_cfg) (hk : hooks ustate) (g : grammar) (A : rule) (l : name) 
+    (x1 : expr) (xs : list expr) (rf fds fds1 inner1 : list fdesc) (clean : name -> bool),
+  (forall n : name, clean n = true -> rule_clean g clean n) ->
+  (forall (n : name) (r : rule),
+   clean n = true -> find_rule g n = Some r -> eclean clean (r_def r) = true) ->
+  clean n_Whitespace = true ->
+  lclean clean (x1 :: xs) = true ->
+  (forall u u' : ustate, u = u') ->
+  forall (st : pstate) (v : value) (s : pstate) (v1 : value) (s1 : pstate) (v2 : value) (s2 : pstate),
+  Xok ustate scfg tcfg fcfg rcfg hk g A l x1 xs rf fds fds1 inner1 st v s v1 s1 ->
+  Xok ustate scfg tcfg fcfg rcfg hk g A l x1 xs rf fds fds1 inner1 st v s v2 s2 -> v1 = v2 /\ Rst s1 s2.
+Proof. exact Xok_fun. Qed.
+Print Assumptions C07_extension_is_a_function.
+
+Theorem C07_extension_matches_or_fails :
+  forall (ustate : Type) (scfg : state_cfg) (tcfg : term_cfg) (fcfg : fields_cfg) 
+    (rcfg : rule_cfg) (hk : hooks ustate) (g : grammar) (A : rule) (l : name) 
+    (x1 : expr) (xs : list expr) (rf fds fds1 inner1 : list fdesc) (clean : name -> bool),
+  (forall n : name, clean n = true -> rule_clean g clean n) ->
+  (forall (n : name) (r : rule),
+   clean n = true -> find_rule g n = Some r -> eclean clean (r_def r) = true) ->
+  clean n_Whitespace = true ->
+  lclean clean (x1 :: xs) = true ->
+  (forall u u' : ustate, u = u') ->
+  forall (st : pstate) (v : value) (s : pstate) (v1 : value) (s1 : pstate),
+  Xok ustate scfg tcfg fcfg rcfg hk g A l x1 xs rf fds fds1 inner1 st v s v1 s1 ->
+  ~ Xfail ustate scfg tcfg fcfg rcfg hk g A l x1 xs rf fds fds1 inner1 st v s.
+Proof. exact Xok_not_fail. Qed.
+Print Assumptions C07_extension_matches_or_fails.
+
+Theorem C07_greedy_unique :
+  forall (ustate : Type) (scfg : state_cfg) (tcfg : term_cfg) (fcfg : fields_cfg) 
+    (rcfg : rule_cfg) (hk : hooks ustate) (g : grammar) (A : rule) (l : name) 
+    (x1 : expr) (xs : list expr),
+  expr ->
+  list expr ->
+  forall (rf fds fds1 inner1 : list fdesc) (clean : name -> bool),
+  (forall n : name, clean n = true -> rule_clean g clean n) ->
+  (forall (n : name) (r : rule),
+   clean n = true -> find_rule g n = Some r -> eclean clean (r_def r) = true) ->
+  clean n_Whitespace = true ->
+  lclean clean (x1 :: xs) = true ->
+  (forall u u' : ustate, u = u') ->
+  forall (st : pstate) (v : value) (s : pstate) (va : value) (sa : pstate) (vb : value) (sb : pstate),
+  Star ustate scfg tcfg fcfg rcfg hk g A l x1 xs rf fds fds1 inner1 st v s va sa ->
+  Stop ustate scfg tcfg fcfg rcfg hk g A l x1 xs rf fds fds1 inner1 st va sa ->
+  Star ustate scfg tcfg fcfg rcfg hk g A l x1 xs rf fds fds1 inner1 st v s vb sb ->
+  Stop ustate scfg tcfg fcfg rcfg hk g A l x1 xs rf fds fds1 inner1 st vb sb -> va = vb /\ Rst sa sb.
+Proof. exact greedy_unique. Qed.
+Print Assumptions C07_greedy_unique.
+
+Theorem C07_closed_form_instance :
+  forall st : pstate,
+  ws_trivial g_sum rE rf_sum st ->
+  forall (F : nat) (gl : glob unit) (r : mres value) (gl' : glob unit),
+  cache_get nE (off st) (g_cache gl) = None ->
+  ev_rule (run unit scfg_doc term_cfg_expected fields_cfg_doc rcfg_doc no_hooks g_sum F) nE st gl =
+  (r, gl') ->
+  match r with
+  | MOk v s =>
+      exists (v0 : value) (s0 : pstate),
+        Bok unit scfg_doc term_cfg_expected fields_cfg_doc rcfg_doc no_hooks g_sum rE b_num [] rf_sum
+          fds_sum st v0 s0 /\
+        Star unit scfg_doc term_cfg_expected fields_cfg_doc rcfg_doc no_hooks g_sum rE nl x_plus [x_num]
+          rf_sum fds_sum fds1_sum inner1_sum st v0 s0 v s /\
+        Stop unit scfg_doc term_cfg_expected fields_cfg_doc rcfg_doc no_hooks g_sum rE nl x_plus [x_num]
+          rf_sum fds_sum fds1_sum inner1_sum st v s
+  | MErr _ =>
+      Bfail unit scfg_doc term_cfg_expected fields_cfg_doc rcfg_doc no_hooks g_sum rE b_num [] rf_sum
+        fds_sum st
+  | _ => True
+  end.
+Proof. exact sum_closed_form. Qed.
+Print Assumptions C07_closed_form_instance.
